@@ -45,7 +45,8 @@ def _hk(x):
 @st.composite
 def key_column(draw, n):
     kind = draw(st.sampled_from(KEY_KINDS))
-    pools = {'int64': [0, 1, 2, -3, 7], 'float64': [0.0, 0.5, -1.5, 2.0], '<U2': ['a', 'b', 'c', '1'], 'bool': [True, False],
+    # (several key columns of unlike kinds are compared as tuples: 1 with '1a' and 11 with 'a' are different keys)
+    pools = {'int64': [0, 1, 11, -3, 7], 'float64': [0.0, 0.5, -1.5, 2.0], '<U2': ['a', '1a', 'c', '1'], 'bool': [True, False],
              'M8[D]': [np.datetime64(18000 + i, 'D') for i in range(4)], 'object_str': ['x', 'y', 'z'],
              'object_mixed': [1, 'a', None, 2.5, True]}
     pool = pools[kind]
@@ -66,6 +67,19 @@ def group_cases(draw):
     nk = draw(st.sampled_from([1, 2, 1]))
     n = draw(st.sampled_from([4, 3, 6, 2, 1, 0, 5, 7, 8, 9]))
     keys = [draw(key_column(n)) for _ in range(nk)]
+    if draw(st.integers(0, 5)) == 5 and n >= 2:
+        # two key columns of unlike kinds whose values are distinct as tuples but alike when written one after the other
+        # ((1, '1a') / (11, 'a'); ('a', 'b1') / ('ab', '1')): compared as tuples they are different keys
+        if draw(st.booleans()):
+            k0 = gen.to_array('int64', [draw(st.sampled_from([1, 11])) for _ in range(n)])
+            k1 = gen.to_array('<U2', [draw(st.sampled_from(['1a', 'a'])) for _ in range(n)])
+            keys = [(k0, 'int64'), (k1, '<U2')]
+        else:
+            k0 = gen.to_array('<U2', [draw(st.sampled_from(['a', 'ab'])) for _ in range(n)])
+            k1 = gen.to_array('object', [draw(st.sampled_from(['b1', 1])) for _ in range(n)])
+            keys = [(k0, '<U2'), (k1, 'object_str')]
+        if draw(st.booleans()):
+            keys = keys[::-1]
     extra = draw(st.integers(1, 3))
     payload = draw(gen.blocks(n, extra, kinds=('int64', 'float64', '<U3', 'bool', 'object'), missing=False))
     return {'what': what, 'keys': [k[0] for k in keys], 'kinds': [k[1] for k in keys], 'payload': payload, 'pos': pos,
